@@ -10,6 +10,7 @@ mod exec;
 mod gcjudge;
 mod histjudge;
 mod mapjudge;
+mod parjudge;
 mod report;
 mod structural;
 mod visitjudge;
@@ -123,6 +124,7 @@ fn main() {
                 "C01" => exec::c01(c, &mut rep, seed),
                 "C18" => exec::c18(c, &mut rep, seed),
                 "C14" => cfgjudge::run(c, &mut rep),
+                "C09" => parjudge::run(c, second.get(&c.idx).copied(), &mut rep),
                 "C17" => histjudge::run(c, &mut rep),
                 "C15" => buildjudge::run(c, &mut rep),
                 "C16" => visitjudge::run(c, &mut rep),
